@@ -8,8 +8,26 @@ import gen_paths as G
 from core import rng
 
 
-def canon_vars(v):
-    return json.loads(json.dumps(v, sort_keys=True, default=str))
+def canon_vars(v, _seen=None):
+    """JSON-able copy of a variables dict; tuples become lists, cycles (a stack pushed onto
+    itself) are cut with a marker"""
+    _seen = _seen or []
+    if any(v is s for s in _seen):
+        return "<cycle>"
+    if isinstance(v, dict):
+        return {str(k): canon_vars(x, _seen + [v]) for k, x in sorted(v.items(), key=lambda kv: str(kv[0]))}
+    if isinstance(v, (list, tuple)):
+        return [canon_vars(x, _seen + [v]) for x in v]
+    if isinstance(v, (str, int, float, bool)) or v is None:
+        return v
+    return str(v)
+
+
+def has_recursion_error(*outs):
+    for o in outs:
+        if o.get("raised") == "RecursionError" or any(e[1] == "RecursionError" for e in (o.get("errors") or [])):
+            return True
+    return False
 
 
 def observable(out):
@@ -89,6 +107,12 @@ def case_methods(case):
         runs[meth] = out
         res["disagree"] += compare_with_model(meth, case["scan"], recs, meth, out)
     c, nx, ff = runs["collect"], runs["next"], runs["ff"]
+    if has_recursion_error(c, nx, ff):
+        # a look-ahead that recurses until Python's stack is exhausted: the outcome depends on the
+        # interpreter's stack depth at the call, outside every model (counted, not judged)
+        res["unmodelled"] = "RecursionError"
+        res["disagree"] = []
+        return res
     # oracle: the three are the same run
     if c.get("lines") != nx.get("lines"):
         res["oracle"].append({"what": "collect() and next() return different lines", "collect": c.get("lines"), "next": nx.get("lines")})
